@@ -19,6 +19,7 @@ which is as constructed (all `kNone`); every list `cs` of root calls (initialize
 cleanup in any order and multiplicity, and changes of any module's fault flags between calls).
 -/
 import TboxModel.C11.Iso
+import TboxModel.C11.GenTable
 namespace Tbox.C11
 
 /-- the whole history of the property: root calls, then `cleanup()`, then `~Module()` -/
@@ -244,6 +245,118 @@ example : proj (fun n => n < 2) (runCalls true (optTree true true false true) [.
 theorem C11_required_not_isolated :
     (initM true cexTree).2.1 = false ∧ (initM true (cexTree.setFlags 2 true true true)).2.1 = true := by
   simp [cexTree, Mod.setFlags, Kids.setFlags, initM, initKids, cleanup, cleanupKids, stop, Mod.kids, Mod.info, setSt]
+
+/-! ### the state machine of `Module::State` — total transition table, tied to the source
+
+`Gen.*` (lean/TboxModel/C11/GenTable.lean) is regenerated on every run from module.cpp: for each API
+function the `state_` guard that makes it return early and the `state_` assignment it ends with.
+The table below is stated with those definitions, so a changed guard or assignment in the source
+breaks `C11_state_table` at `lake build` (not only the differential run). -/
+
+/-- what one root call may do to the root's `state_` and return, according to the source's guards -/
+def tableAllows (s : St) (c : Call) (s' : St) (ret : Bool) : Prop :=
+  match c with
+  | .init => if Gen.initRefuses s then s' = s ∧ ret = false
+             else (ret = true ∧ s' = Gen.initNext) ∨ (ret = false ∧ s' = s)
+  | .start => if Gen.startRefuses s then s' = s ∧ ret = false
+              else (ret = true ∧ s' = Gen.startNext) ∨ (ret = false ∧ s' = s)
+  | .stop => if Gen.stopRefuses s then s' = s else s' = Gen.stopNext
+  | .cleanup => if Gen.cleanupRefuses s then s' = s else s' = Gen.cleanupNext
+  | .setFlags _ _ _ _ => s' = s
+
+/-- total: for EVERY tree, EVERY state of it and EVERY call the outcome is the table's -/
+theorem C11_state_table (t : Mod) (c : Call) :
+    tableAllows t.st c (call true t c).1.st (call true t c).2.1 := by
+  cases t with
+  | node i ks =>
+    cases c with
+    | init =>
+      simp only [tableAllows, call, Gen.initRefuses, Gen.initNext]
+      by_cases hn : i.st = .none
+      · have g : ((Mod.node i ks).st != St.none) = false := by simp [Mod.st, Mod.info, hn]
+        simp only [g, Bool.false_eq_true, if_false]
+        unfold initM
+        simp only [hn, ne_eq, not_true_eq_false, if_false]
+        split
+        · simp [Mod.st, Mod.info, hn]
+        split
+        · simp [Mod.st, Mod.info, hn]
+        split
+        · simp [Mod.st, Mod.info, setSt]
+        · simp [Mod.st, Mod.info, hn]
+      · have g : ((Mod.node i ks).st != St.none) = true := by simp [Mod.st, Mod.info, hn]
+        simp only [g, if_true]
+        unfold initM
+        simp [hn]
+    | start =>
+      simp only [tableAllows, call, Gen.startRefuses, Gen.startNext]
+      by_cases hn : i.st = .inited
+      · have g : ((Mod.node i ks).st != St.inited) = false := by simp [Mod.st, Mod.info, hn]
+        simp only [g, Bool.false_eq_true, if_false]
+        unfold start
+        simp only [hn, ne_eq, not_true_eq_false, if_false]
+        split
+        · simp [Mod.st, Mod.info, hn]
+        split
+        · simp [Mod.st, Mod.info, setSt]
+        · simp [Mod.st, Mod.info, hn]
+      · have g : ((Mod.node i ks).st != St.inited) = true := by simp [Mod.st, Mod.info, hn]
+        simp only [g, if_true]
+        unfold start
+        simp [hn]
+    | stop =>
+      simp only [tableAllows, call, Gen.stopRefuses, Gen.stopNext]
+      by_cases hn : i.st = .running
+      · have g : ((Mod.node i ks).st != St.running) = false := by simp [Mod.st, Mod.info, hn]
+        simp only [g, Bool.false_eq_true, if_false]
+        unfold stop
+        simp [hn, Mod.st, Mod.info, setSt]
+      · have g : ((Mod.node i ks).st != St.running) = true := by simp [Mod.st, Mod.info, hn]
+        simp only [g, if_true]
+        unfold stop
+        simp [hn]
+    | cleanup =>
+      simp only [tableAllows, call, Gen.cleanupRefuses, Gen.cleanupNext]
+      by_cases hn : i.st = .none
+      · have g : ((Mod.node i ks).st == St.none) = true := by simp [Mod.st, Mod.info, hn]
+        simp only [g, if_true]
+        rw [cleanup]
+        simp [hn]
+      · have g : ((Mod.node i ks).st == St.none) = false := by simp [Mod.st, Mod.info, hn]
+        simp only [g, Bool.false_eq_true, if_false]
+        rw [cleanup]
+        simp [hn, Mod.st, Mod.info, setSt]
+    | setFlags k c i' s =>
+      simp only [tableAllows, call, Mod.setFlags, Mod.st, Mod.info]
+      split <;> rfl
+
+/-- the states reachable through any interleaving of the calls are those of the table's automaton -/
+def tableReach : St → List Call → St → Prop
+  | s, [], s' => s' = s
+  | s, c :: cs, s' => ∃ s1 r, tableAllows s c s1 r ∧ tableReach s1 cs s'
+
+theorem C11_state_machine (t : Mod) (cs : List Call) : tableReach t.st cs (runCalls true t cs).1.st := by
+  induction cs generalizing t with
+  | nil => rfl
+  | cons c cs ih => exact ⟨_, _, C11_state_table t c, ih _⟩
+
+/-- `add()` (the sixth API function) succeeds only where the source's guard lets it, and never
+changes a `state_` -/
+theorem C11_add_guard (f f' : Forest) (p c : Nat) (r : Bool) (h : f.add p c r = some (f', true)) :
+    ∃ pm, f.find p = some pm ∧ Gen.addRefuses pm.info.st = false := by
+  unfold Forest.add at h
+  split at h
+  · rename_i pm cm hp hc
+    refine ⟨pm, hp, ?_⟩
+    split at h
+    · simp at h
+    · split at h
+      · simp at h
+      · split at h
+        · simp at h
+        · rename_i hst
+          simpa [Gen.addRefuses] using hst
+  · simp at h
 
 /-! ### Main() sequencing (run_in_frontend.cpp / run_in_backend.cpp) -/
 
